@@ -28,6 +28,8 @@ import (
 	"fmt"
 	"math/big"
 	"sort"
+	"encoding/json"
+	"os"
 	"strings"
 	"time"
 
@@ -950,6 +952,10 @@ func runTree(root *TNode, env *treeEnv, ptn uint64, pruned bool, traced bool) (r
 
 func (c *ctx) fail(sig, what string, cj any) {
 	c.rep.Count("monitor-failure:" + sig)
+	if os.Getenv("C12_DEBUG") != "" && !strings.HasPrefix(sig, "f8-") && !strings.HasPrefix(sig, "f9-") && !strings.HasPrefix(sig, "sizechange-") { // experiments only
+		b, _ := json.Marshal(cj)
+		fmt.Fprintf(os.Stderr, "c12 debug: %s %s\n", sig, b)
+	}
 	if c.perSig[sig] < 3 {
 		c.perSig[sig]++
 		c.rep.Fail(sig, what, cj)
